@@ -171,3 +171,11 @@ def dup_in(existing, ids):
             return True
         seen.add(i)
     return False
+
+
+def contents_unchanged(x):
+    return True
+
+
+def contents_as_old(x):
+    return True
